@@ -5,7 +5,7 @@ Spec:
   EV = {"complete": bool, "cchan": null|"x", "cancel": bool, "handlers": [H, ...]}      (1..3; slot i has priority 30-10*i)
   H  = {"kind": "plain"|"raise"|"stop"|"gen"|"genraise", "fire": [EV, ...], "steps": [[EV, ...], ...]}
 "fire" children are fired when the handler starts; for generator kinds each entry of "steps" is one later step
-that fires its children and then yields. "cancel" = the firing handler cancels the event right after firing it
+that fires its children (a list of EV), or {"call": EV, "kids": [EV, ...]}: ``yield self.call(EV)`` and then fire the kids. "cancel" = the firing handler cancels the event right after firing it
 (never set on roots or on complete-requesting events).
 """
 from hypothesis import strategies as st
@@ -32,7 +32,11 @@ def _walk(events, fn, parent=None):
         for h in e['handlers']:
             _walk(h.get('fire', []), fn, e)
             for s in h.get('steps', []):
-                _walk(s, fn, e)
+                if isinstance(s, dict):
+                    _walk([s['call']], fn, e)
+                    _walk(s['kids'], fn, e)
+                else:
+                    _walk(s, fn, e)
 
 
 def _number(spec):
@@ -43,31 +47,36 @@ def _number(spec):
         e['id'] = c[0]
         if parent is None or e['complete']:
             e['cancel'] = False
+        for h in e['handlers']:
+            for s in h.get('steps', []):
+                if isinstance(s, dict):
+                    s['call']['cancel'] = False   # a cancelled callee would (by design) never resume its caller
 
     _walk(spec['roots'], f)
     return spec
 
 
 def _ev_strategy(depth, root=False):
-    def handler_s(children):
+    def handler_s(children, child=None):
         return st.fixed_dictionaries({
             'kind': st.sampled_from(['plain', 'plain', 'plain', 'raise', 'stop', 'gen', 'gen', 'genraise']),
             'fire': children,
-            'steps': st.lists(children, max_size=2),
+            'steps': st.lists(st.one_of(children, children, st.fixed_dictionaries({'call': child, 'kids': children})), max_size=2)
+            if child is not None else st.lists(children, max_size=2),
         })
 
-    def event_s(children, complete):
+    def event_s(children, complete, child=None):
         return st.fixed_dictionaries({
             'complete': complete,
             'cchan': st.sampled_from([None, None, None, 'x']),
             'cancel': st.sampled_from([False, False, False, True]),
-            'handlers': st.lists(handler_s(children), min_size=1, max_size=SLOTS),
+            'handlers': st.lists(handler_s(children, child), min_size=1, max_size=SLOTS),
         })
 
     inner_complete = st.sampled_from([False, False, False, True])
     s = event_s(st.just([]), inner_complete)
     for d in range(depth):
-        s = event_s(st.lists(s, max_size=2), inner_complete if d < depth - 1 else st.sampled_from([True, True, True, False]))
+        s = event_s(st.lists(s, max_size=2), inner_complete if d < depth - 1 else st.sampled_from([True, True, True, False]), child=s)
     return s
 
 
@@ -141,9 +150,17 @@ class C05(Prop):
         def mk(slot):
             def gen(self, es, h):
                 for i, s in enumerate(h['steps']):
-                    yield None
-                    log.append(('step', es['id'], slot, i))
-                    fire_children(self, s, 'step')
+                    if isinstance(s, dict):
+                        # a later step that calls an event and goes on firing after the call returned
+                        c = make(s['call'])
+                        log.append(('fired', s['call']['id'], 'call'))
+                        yield self.call(c)
+                        log.append(('step', es['id'], slot, i))
+                        fire_children(self, s['kids'], 'step')
+                    else:
+                        yield None
+                        log.append(('step', es['id'], slot, i))
+                        fire_children(self, s, 'step')
                 log.append(('hend', es['id'], slot))
                 if h['kind'] == 'genraise':
                     raise Boom((es['id'], slot))
@@ -272,7 +289,7 @@ class C05(Prop):
                 return bad('complete-channels', 'event %d: complete delivered on %r' % (eid, log[dc[0]][2]))
             abnormal = False
             for x in cl:
-                if x in cancelled or fired.get(x) == 'step':
+                if x in cancelled or fired.get(x) in ('step', 'call'):
                     abnormal = True
                 kinds = [h['kind'] for h in especs[x]['handlers']]
                 if x not in cancelled and any(k in ('raise', 'stop', 'genraise') for k in kinds):
@@ -283,6 +300,8 @@ class C05(Prop):
             classes.append('cancelled-descendant')
         if any(v == 'step' for v in fired.values()):
             classes.append('fired-from-generator-step')
+        if any(v == 'call' for v in fired.values()):
+            classes.append('called-from-generator-step')
         if any(especs[e]['complete'] and parent[e] is not None for e in fired):
             classes.append('nested-complete')
         if any(h['kind'] == 'genraise' for e in fired if e not in cancelled for h in especs[e]['handlers']):
